@@ -76,6 +76,7 @@ def gen_case(g):
     if name == "zeros" and post == "sr":
         post = "sr_rejected"
     c = {"kind": "init", "init": name, "shape": [m, n], "kw": kw, "seed": g.randint(0, 2 ** 31),
+         "scalar_type": g.choice(["float", "float", "np.float64", "np.float32"]),
          "seed_kind": g.choice(["int", "int", "gen"]), "post": post,
          "via": g.choice(["direct", "direct", "partial"])}
     if post in ("sr", "sr_rejected"):
@@ -125,11 +126,14 @@ def _kwargs(c, with_post=True):
         kw["weights"] = np.array(kw["weights"], dtype=kw["dtype"])
     if c["init"] not in ("zeros", "ones", "ring", "line"):
         kw["seed"] = c["seed"] if c["seed_kind"] == "int" else np.random.default_rng(c["seed"])
+    # a scalar factor arrives as a Python float or as a numpy scalar (np.linspace sweeps, values read
+    # from an array): the requested dtype must be honoured either way
+    as_t = {"float": float, "np.float64": np.float64, "np.float32": np.float32}[c.get("scalar_type", "float")]
     if with_post:
         if c["post"] in ("sr", "sr_rejected"):
-            kw["sr"] = c["sr"]
+            kw["sr"] = as_t(c["sr"])
         elif c["post"] == "scalar":
-            kw["input_scaling"] = c["input_scaling"]
+            kw["input_scaling"] = as_t(c["input_scaling"])
         elif c["post"] == "cols":
             s = c["input_scaling"]
             kw["input_scaling"] = np.array(s) if c.get("scaling_container") == "array" else list(s)
@@ -362,8 +366,9 @@ def check_init(ctx, c, open_k):
     # --- post-processing
     f32 = kw["dtype"] == "float32"
     rt = 2e-6 if f32 else 1e-12
+    as_t = {"float": float, "np.float64": np.float64, "np.float32": np.float32}[c.get("scalar_type", "float")]
     if post == "sr":
-        sr = c["sr"]
+        sr = float(as_t(c["sr"]))
         scale = float(np.max(np.abs(raw))) if raw.size else 0.0
         if nil:
             blow = float(np.max(np.abs(D))) / scale if scale else 1.0
@@ -400,7 +405,7 @@ def check_init(ctx, c, open_k):
                 if not np.allclose(X, D, rtol=1e-14, atol=0):
                     res.append(("model", "sr rescaling differs from RpyModel.scaleSR on the same draw and the same solver value"))
     elif post in ("scalar", "cols"):
-        s = c["input_scaling"]
+        s = c["input_scaling"] if post == "cols" else float(as_t(c["input_scaling"]))
         svec = np.array(s if post == "cols" else [s] * n, dtype=float)
         want = raw.astype(float) * svec[None, :]
         if not np.allclose(D, want, rtol=rt, atol=0):
@@ -538,7 +543,7 @@ def check_cases(ctx, cases):
             mode = "degree" if kw.get("degree") is not None else ("conn" if kw.get("connectivity", 1.0) < 1 else "full")
             ctx.stat(f"init={c['init']}")
             ctx.stat(f"post={c['post']} mode={mode} fmt={kw.get('sparsity_type')} dtype={kw['dtype']}")
-            ctx.stat(f"seed_kind={c['seed_kind']} via={c['via']}")
+            ctx.stat(f"seed_kind={c['seed_kind']} via={c['via']} scalar={c.get('scalar_type', 'float')}")
         ctx.sample(c)
         for r in res:
             if r[0] == "skip":
